@@ -37,8 +37,8 @@ ASSUMPTIONS = [
 ENGINE = "E1-enumerator"
 
 BOUNDS = {
-    "quick": dict(n=4, ctx=[[1, 2], [2, 1]], shards=96),
-    "thorough": dict(n=5, ctx=[[1, 3], [2, 2], [3, 1]], shards=1536),
+    "quick": dict(n=4, ctx=[[1, 2], [2, 1]], sib_levels=["lite", "lite"], shards=96),
+    "thorough": dict(n=5, ctx=[[1, 3], [2, 2], [3, 1]], sib_levels=["full", "full", "min"], shards=1536),
 }
 TIME_CAP = {"quick": 900, "thorough": 5400}
 
@@ -50,6 +50,7 @@ CTX_OPS = [op for op in lang.ARITY]
 def bounds(tier):
     b = BOUNDS[tier]
     return {"max_nodes": b["n"], "contexts[depth,max_filler_nodes]": b["ctx"],
+            "sibling_temporaries": {"fillers": len(_temp_fillers("0", "x")), "combinators": _COMBINATORS, "levels_per_context_depth": b.get("sib_levels")},
             "constructors": sorted(lang.ARITY) + ["return", "raise", "boom", "break", "continue"],
             "leaves": [l[1] for l in lang.LEAVES], "wrappers": list(lang.WRAPPERS), "pool": list(lang.POOL)}
 
@@ -78,6 +79,27 @@ def _contexts(depth, in_fn, in_loop):
                 yield ((op, k),) + rest, f2, l2
 
 
+def _sibling(op, j, k):
+    """Canonical filler for sibling slot j when the hole is in slot k: chosen so that control REACHES the hole."""
+    T, F = ("L", "1"), ("L", "0")
+    if op == "if" and j == 0:
+        return F if k == 2 else T
+    if op == "cond":
+        if j == 0:
+            return F if k >= 2 else T
+        if j == 2:
+            return T
+    if op in ("or", "or3") and j < k:
+        return F
+    if op in ("while", "whileelse") and j == 0:
+        return F                      # the loop ends at once (a hole in the body is compiled but not run)
+    if op == "try_ex" and j == 0 and k == 1:
+        return ("raise",)             # make the handler run
+    if op == "try_full" and j == 0 and k == 1:
+        return ("raise",)
+    return T
+
+
 def _plug(path, filler):
     if not path:
         return filler
@@ -88,12 +110,47 @@ def _plug(path, filler):
         if j == k:
             kids.append(_plug(rest, filler))
         else:
-            # canonical sibling: a falsy condition for loops (they end at once), truthy elsewhere
-            if op in ("while", "whileelse") and j == 0:
-                kids.append(("L", "0"))
-            else:
-                kids.append(("L", "1"))
+            kids.append(_sibling(op, j, k))
     return (op,) + tuple(kids)
+
+
+# ---- sibling pairs of temporary-producing constructs (two compiler temporaries live at once)
+def _temp_fillers(v, var):
+    """Terms that make the compiler introduce a temporary and evaluate to the value of leaf v; `var` is the variable
+    their statement assigns (the two siblings of a pair use different ones, so the pair is not 'unspecified')."""
+    L1, Lv = ("L", "1"), ("L", v)
+    st = ("do", ("setv_" + var, L1), Lv)
+    out = [
+        ("if", L1, st, Lv),
+        ("if", ("L", "0"), Lv, st),
+        ("and", L1, st),
+        ("or", ("L", "0"), st),
+        ("when", L1, st),
+        ("cond", ("L", "0"), L1, L1, st),
+        ("try_fin", Lv, L1),
+        ("try_ex", Lv, L1),
+        ("try_full", L1, L1, Lv, L1),
+        ("with_n", Lv),
+        ("fn0", ("do", ("setv_x", L1), Lv)),
+    ]
+    if var == "x":
+        out.append(("let_x", Lv, Lv))
+    return out
+
+
+_COMBINATORS = ["list", "add", "f2", "do"]
+
+
+def _sib_terms(level="full"):
+    """level: 'full' = both orders x 4 combinators; 'lite' = both orders x {list, add}; 'min' = one order x {list}"""
+    out = []
+    combs = {"full": _COMBINATORS, "lite": ["list", "add"], "min": ["list"]}[level]
+    for a in _temp_fillers("0", "y"):
+        for b in _temp_fillers("1", "x"):
+            for x, y in (((a, b), (b, a)) if level != "min" else ((a, b),)):
+                for c in combs:
+                    out.append((c, x, y))
+    return out
 
 
 _CTX_CACHE = {}
@@ -122,6 +179,19 @@ def shards(tier):
         nctx = len(_ctx_space(tier, w_fn))
         for lo, hi in enumer.chunk(nctx, b["shards"] // 2):
             out.append(["ctx", w_fn, 0, lo, hi])
+    for w_fn in (False, True):
+        nsib = len(_sib_ctxs(tier, w_fn))
+        for lo, hi in enumer.chunk(nsib, 24):
+            out.append(["sib", w_fn, 0, lo, hi])
+    return out
+
+
+def _sib_ctxs(tier, w_fn):
+    """[(path, sibling-term level)]"""
+    lv = BOUNDS[tier].get("sib_levels", ["lite", "lite"])
+    out = [((), lv[0])]
+    for d in range(1, len(lv)):
+        out += [(path, lv[d]) for path, f, l in _contexts(d, w_fn, False)]
     return out
 
 
@@ -270,6 +340,17 @@ def run_shard(shard, tier):
                 acc.count("op:" + op)
             for w in wrappers:
                 check_case(acc, t, w, record_sample=(idx % 4001 == 7 and w == wrappers[0]))
+    elif kind == "sib":
+        paths = _sib_ctxs(tier, w_fn)
+        for idx in range(lo, hi):
+            path, level = paths[idx]
+            for si, st in enumerate(_sib_terms(level)):
+                t = _plug(path, st)
+                acc.states += 1
+                acc.nontrivial += 1
+                acc.count("sibling-temporaries")
+                for w in (wrappers if tier == "thorough" and level != "min" else wrappers[:1]):
+                    check_case(acc, t, w, record_sample=(idx % 17 == 3 and si % 211 == 7 and w == wrappers[0]))
     else:
         ctxs = _ctx_space(tier, w_fn)
         for idx in range(lo, hi):
